@@ -25,10 +25,12 @@ def undersized_campaign(seed: int, n_beh: int, only=None):
         gen_states += r.generated
         for bi, beh in enumerate(behs):
             sub = subs[bi % len(subs)]
-            res = writer.replay_stepwise(beh, c, sub, stop_on_reject=True)
+            # IRI-only universes are RDF 1.1: every second behaviour goes through the rdflib integration's term encoder
+            integ = "rdflib" if (table == "prefix" and bi % 2 == 1 and k != "c18-prefix-4-q6") else "generic"
+            res = writer.replay_stepwise(beh, c, sub, stop_on_reject=True, integ=integ)
             frames = wire.dec_stream(res["bytes"], delimited=True)
             stmts = [op["st"] for op in beh["hist"] if op["op"] in ("stmt", "reject")]
-            case = {"key": {"table": table, "universe": k, "sub": sub.label}, "model_bad": beh["bad"], "res": res,
+            case = {"key": {"table": table, "universe": k, "sub": sub.label, "integ": integ}, "model_bad": beh["bad"], "res": res,
                     "replay": {"consts": c, "statements": stmts, "sub": sub.label, "accepted": res["accepted"], "raised": res["rejected"]}}
             first_rej = next((i for i, op in enumerate(beh["hist"]) if op["op"] == "reject"), None)
             case["model_reject_at"] = first_rej
